@@ -238,6 +238,29 @@ func runC14(c *core.Ctx) {
 		}
 	})
 	// the default configuration location is covered by C16; here the explicit ones
+	// entry lines just below the longest line the tool reads: what print writes for them (a dash and two decimals
+	// more) must still be a line the tool reads
+	if !c.InChild() && c.HR != "" {
+		dir := filepath.Join(c.Work, "near-limit")
+		for _, k := range []int{4090, 4096, 65000, 65529, 65531, 65533, 65535} {
+			name := strings.Repeat("n", k-5)
+			files := map[string]string{"log.yaml": "2021/01/24:\n  " + name + ": 1\n  water: 2\n"}
+			run.WriteFiles(dir, files)
+			p1 := run.Exec(c.HR, []string{"--no-color", "-l", "log.yaml", "print"}, run.ExecOpts{Dir: dir})
+			c.Eval(1)
+			c.Count("print_lines_near_the_line_limit", 1)
+			if p1.Exit != 0 {
+				continue // the tool does not read the log: nothing is claimed
+			}
+			run.WriteFiles(dir, map[string]string{"printed.yaml": p1.Out})
+			p2 := run.Exec(c.HR, []string{"--no-color", "-l", "printed.yaml", "print"}, run.ExecOpts{Dir: dir})
+			c.Eval(1)
+			if p2.Exit != 0 || p2.Out != p1.Out {
+				c.Violation("print|output-not-readable-near-the-line-limit", fmt.Sprintf("an entry line of %d bytes is read and printed (exit 0), but the printed log is not read back: exit %d %s", k, p2.Exit, clip(p2.Serr, 120)),
+					caseDoc{Files: map[string]string{"log.yaml": fmt.Sprintf("2021/01/24:\n  <%d times n>: 1\n  water: 2\n", k-5)}, Args: []string{"--no-color", "-l", "log.yaml", "print"}, Note: fmt.Sprintf("entry line of %d bytes; then print of the printed file", k), Observed: map[string]any{"print_exit": p1.Exit, "printed_bytes": len(p1.Out), "read_back_exit": p2.Exit, "read_back_stderr": clip(p2.Serr, 200)}})
+			}
+		}
+	}
 	// selection by instants that differ only in the fraction of a second (shared with C06)
 	c06SubSecond(c, [][]string{{"print"}})
 	jobs, deaths := pool.Stats()
